@@ -145,6 +145,14 @@ func genClaimCase(r *Rng, variant int) *claimCase {
 	tx := wire.NewMsgTx(int32(r.Pick(1, 2)))
 	nin := 1 + r.Intn(3)
 	segwit := r.Bool()
+	// encodings btcd accepts that are not the canonical no-witness serialization of a witness-free tx:
+	// 1 = extended encoding (marker 00, flag 01) with every witness stack empty, 2 = legacy + trailing bytes
+	oddEnc := 0
+	if variant == 11 || variant == 12 {
+		segwit, oddEnc = false, variant-10
+	} else if variant == 0 && r.Chance(20) {
+		segwit, oddEnc = false, 1+r.Intn(2)
+	}
 	for i := 0; i < nin; i++ {
 		var h chainhash.Hash
 		copy(h[:], r.Bytes(32))
@@ -187,6 +195,15 @@ func genClaimCase(r *Rng, variant int) *claimCase {
 	tx.Serialize(&full)
 	tx.SerializeNoWitness(&stripped)
 	c.btcTx = full.Bytes()
+	if nw := stripped.Bytes(); oddEnc == 1 {
+		ext := append([]byte{}, nw[:4]...)
+		ext = append(ext, 0x00, 0x01)
+		ext = append(ext, nw[4:len(nw)-4]...)
+		ext = append(ext, make([]byte, nin)...) // one empty witness stack per input
+		c.btcTx = append(ext, nw[len(nw)-4:]...)
+	} else if oddEnc == 2 {
+		c.btcTx = append(append([]byte{}, nw...), r.Bytes(1+r.Intn(6))...)
+	}
 	h := tx.TxHash()
 	c.haveView = true
 	c.txid = h.CloneBytes()
@@ -266,7 +283,7 @@ func genClaim(r *Rng, n int, w *bufio.Writer) {
 	for i := 0; i < n; i++ {
 		v := 0
 		if i%3 == 2 {
-			v = 1 + (i/3)%10
+			v = 1 + (i/3)%12
 		}
 		fmt.Fprintln(w, genClaimCase(r, v).line())
 	}
